@@ -78,7 +78,7 @@ def cases(tier):
     for d in DECIMAL_DIES:
         cs.append(dict(kind='diedec', mode='margin', die=d))
     # histories made of real API calls on an unrelated design of the same scale (margin mode: any difference is a violation)
-    for hist in ('netlist-with-terminal', 'netlist-soft', 'die', 'allocation'):
+    for hist in ('netlist-with-terminal', 'netlist-terminals-only', 'netlist-soft', 'die', 'allocation'):
         for layout in ('east', 'north'):
             cs.append(dict(kind='apihist', hist=hist, layout=layout))
     for hist in (1, 2):
@@ -186,6 +186,8 @@ def body_apihist(I, case):
         if h == 'netlist-with-terminal':
             Netlist({'Modules': {'A': {'area': s_, 'center': [1.0, 1.0]}, 'B': {'area': 2.0, 'center': [3.0, 1.0]},
                                  'P': {'terminal': True, 'fixed': True, 'center': [0.0, 2.0]}}, 'Nets': [['A', 'B', 'P']]})
+        elif h == 'netlist-terminals-only':   # a design without any dimension
+            Netlist({'Modules': {'P': {'terminal': True, 'fixed': True, 'center': [s_, 2.0]}, 'Q': {'terminal': True}}, 'Nets': [['P', 'Q']]})
         elif h == 'netlist-soft':
             Netlist({'Modules': {'A': {'area': s_, 'rectangles': [[1.0, 1.0, 2.0, 1.0]]}, 'B': {'area': 2.0, 'center': [3.0, 1.0]}}, 'Nets': [['A', 'B']]})
         elif h == 'die':
